@@ -853,3 +853,68 @@ Example sample_other_order :
   cl_deps (run (V false true) "nginx" sup121 [] (fun _ k => if String.eqb (fst k) "c" then 5%N else 0%N) sample)
   = [Dep 4 ("c", "gw"); Dep 3 ("b", "gw")].
 Proof. vm_compute. reflexivity. Qed.
+
+(* ---------------------------------------------------------------- every Go map iteration order is some rank
+   function: quantifying the theorems over all [rk] covers every order in which the new Gateways can be visited *)
+
+From Coq Require Import Sorted.
+
+Lemma insert_by_sorted rk k l :
+  StronglySorted (fun a b => (rk a <= rk b)%N) l -> StronglySorted (fun a b => (rk a <= rk b)%N) (insert_by rk k l).
+Proof.
+  induction l as [|a l IH]; simpl; intros H.
+  - constructor; constructor.
+  - inversion H as [|? ? H1 H2]; subst. destruct (N.leb (rk k) (rk a)) eqn:E.
+    + apply N.leb_le in E. constructor; auto. constructor; auto.
+      eapply Forall_impl; [|exact H2]. simpl. intros; lia.
+    + apply N.leb_gt in E. constructor; auto.
+      eapply Permutation_Forall; [apply Permutation_sym; apply insert_by_perm|].
+      constructor; auto. lia.
+Qed.
+
+Lemma sort_by_sorted rk l : StronglySorted (fun a b => (rk a <= rk b)%N) (sort_by rk l).
+Proof. induction l; simpl; [constructor|]. apply insert_by_sorted; auto. Qed.
+
+Lemma sorted_unique (rk : key -> N) l1 : forall l2,
+  Permutation l1 l2 ->
+  StronglySorted (fun a b => (rk a <= rk b)%N) l1 -> StronglySorted (fun a b => (rk a < rk b)%N) l2 -> l1 = l2.
+Proof.
+  induction l1 as [|a t1 IH]; intros l2 P S1 S2.
+  - apply Permutation_nil in P. auto.
+  - destruct l2 as [|b t2]; [apply Permutation_sym, Permutation_nil in P; discriminate|].
+    inversion S1 as [|? ? S1' F1]; inversion S2 as [|? ? S2' F2]; subst.
+    assert (a = b).
+    { assert (Ha : In a (b :: t2)) by (eapply Permutation_in; [exact P|simpl; auto]).
+      assert (Hb : In b (a :: t1)) by (eapply Permutation_in; [apply Permutation_sym; exact P|simpl; auto]).
+      destruct Ha as [->|Ha]; auto. destruct Hb as [->|Hb]; auto.
+      rewrite Forall_forall in F1, F2. specialize (F1 b Hb). specialize (F2 a Ha). simpl in *. lia. }
+    subst b. f_equal. apply IH; auto. eapply Permutation_cons_inv; eauto.
+Qed.
+
+Lemma sorted_members {A} (R R' : A -> A -> Prop) l :
+  StronglySorted R l -> (forall a b, In a l -> In b l -> R a b -> R' a b) -> StronglySorted R' l.
+Proof.
+  induction 1 as [|a l S IH F]; intros H; constructor.
+  - apply IH. intros; apply H; simpl; auto.
+  - rewrite Forall_forall in *. intros b Hb. apply H; simpl; auto.
+Qed.
+
+Lemma index_sorted l : NoDup l -> StronglySorted (fun a b => (index_of a l < index_of b l)%N) l.
+Proof.
+  induction l as [|x t IH]; intros H; [constructor|].
+  inversion H as [|? ? Hx Ht]; subst. constructor.
+  - apply (sorted_members (fun a b => (index_of a t < index_of b t)%N)); [apply IH; auto|].
+    intros a b Ha Hb Lt. simpl.
+    destruct (key_eqb_spec a x) as [->|Na]; [tauto|]. destruct (key_eqb_spec b x) as [->|Nb]; [tauto|]. lia.
+  - rewrite Forall_forall. intros b Hb. simpl.
+    destruct (key_eqb_spec x x); [|congruence]. destruct (key_eqb_spec b x) as [->|Nb]; [tauto|]. lia.
+Qed.
+
+Lemma every_order_is_a_rank l l' :
+  NoDup l' -> Permutation l l' -> sort_by (fun k => index_of k l') l = l'.
+Proof.
+  intros N P. apply (sorted_unique (fun k => index_of k l')).
+  - eapply perm_trans; [apply sort_by_perm|exact P].
+  - apply sort_by_sorted.
+  - apply index_sorted; auto.
+Qed.
